@@ -633,6 +633,10 @@ def gen_client(ch, kind, meta):
         n2 = ch.randint(1, 5)
         a = _pupil_arrays(ch, n1, 'array')
         b = _pupil_arrays(ch, n2, 'array')
+        if ch.chance(0.3):
+            # off-axis rays compared, an on-axis ray among the others
+            a['Hy'] = ['array', [ch.pick([1.0, 0.7, -0.5])] * n1]
+            b['Hy'][1][ch.randint(0, n2 - 1)] = 0.0
         # S's rays placed at drawn positions inside the larger batch
         order = ch.shuffle([('S', i) for i in range(n1)] +
                            [('T', i) for i in range(n2)]) \
@@ -1051,6 +1055,16 @@ def run_one(prop, run_seed, run_index, cfg):
             ops, m = lensgen.gen_lens(ch, feats, harsh=ch.chance(0.2),
                                       max_surf=8)
             meta = {'n': m['nsurf'] + 2}
+            if ch.chance(0.12):
+                # a paraboloid up front (Newtonian style): the quadratic of
+                # the intersection degenerates for axis-parallel rays
+                for o in ops:
+                    if o.get('op') == 'add_surface' and \
+                            o.get('index', 0) >= 1 and \
+                            o.get('stype') == 'standard' and \
+                            math.isfinite(o.get('radius', math.inf)):
+                        o['conic'] = ch.pick([-1, -1.0])
+                        break
             if ch.chance(0.25):
                 ops = ops + gen_managers(ch, ops)
         lenses.append(ops)
